@@ -46,6 +46,11 @@ class PlotAdapter(Adapter):
             return self.H1(self.SB(np.array(self.pe.edges(s["bins"]))), np.array(s["freq"], dtype=float) * self.vscale,
                            np.array(s["err2"], dtype=float) * self.vscale ** 2, **kw)
         f = np.array([list(row) for row in s["freq"]], dtype=float) * self.vscale
+        if (f < 0).any():
+            from physt.config import config
+            with config.enable_free_arithmetics():      # negative contents exist only as results of free arithmetics
+                return self.H2([self.SB(np.array(self.pe.edges(s["xbins"]))), self.SB(np.array(self.pe.edges(s["ybins"])))], f,
+                               axis_names=("xa", "ya"), title="t2")
         return self.H2([self.SB(np.array(self.pe.edges(s["xbins"]))), self.SB(np.array(self.pe.edges(s["ybins"])))], f,
                        axis_names=("xa", "ya"), title="t2")
 
